@@ -154,6 +154,10 @@ fn run_inner(id: &str) -> Option<(bool, String)> {
             let o = run_raw(&prog(&v), &mut []);
             (o != Out::Rejected, format!("`lddw r10, 1`: expected the verifier to refuse writing r10, got {:?}", o))
         }
+        "helpers-rand-max" => {
+            let o = match catch_unwind(|| rbpf::helpers::rand(0, u64::MAX, 0, 0, 0)) { Ok(v) => Out::Ok(v), Err(_) => Out::Panic };
+            (o == Out::Panic, format!("rand(0, u64::MAX): expected a value in [0, u64::MAX], got {:?}", o))
+        }
         _ => return None,
     })
 }
